@@ -12,7 +12,7 @@ if [ ! -d $R ]; then git -C /repo worktree add -q --detach $R HEAD; fi
 git -C $R checkout -q --detach "$(git -C /repo rev-parse HEAD)"
 git -C $R checkout -q -- . && git -C $R clean -fdq
 mkdir -p $V
-rsync -a --delete --exclude .git --exclude replays --exclude .work --exclude .locks /tmp/vw/rforacles/ $V/; mkdir -p $V/replays
+rsync -a --delete --exclude .git --exclude replays --exclude .work --exclude .locks --exclude incremental /tmp/vw/rforacles/ $V/; mkdir -p $V/replays
 sed -i "s#path = \"/repo#path = \"$R#g" $V/harness/Cargo.toml
 if [ -n "$patch" ] && [ "$patch" != "-" ]; then git -C $R apply "$patch"; fi
 cd $V
